@@ -584,6 +584,30 @@ def run_scn(exe, text, wd, name, timeout):
     return r, ev, sp
 
 
+def run_scn_watch(exe, sp, wd, timeout):
+    """second attempt at a case that hit the watchdog: on expiry, ask gdb where the process is before killing it"""
+    import subprocess
+    e = dict(os.environ)
+    e.update(common.SAN_ENV)
+    e.update(MYENV)
+    p = subprocess.Popen([exe, sp], stdout=subprocess.PIPE, stderr=subprocess.PIPE, stdin=subprocess.DEVNULL, env=e, cwd=wd)
+    try:
+        out, err = p.communicate(timeout=timeout)
+        rc = p.returncode
+        r = dict(rc=rc, sig=(-rc if rc < 0 else 0), out=out.decode("utf-8", "replace"), err=err.decode("utf-8", "replace"), timeout=False)
+        where = ""
+    except subprocess.TimeoutExpired:
+        g = common.run_proc(["gdb", "-batch", "-p", str(p.pid), "-ex", "bt 30"], timeout=120)
+        where = g["out"] + "\n" + g["err"]
+        p.kill()
+        out, err = p.communicate()
+        r = dict(rc=None, sig=0, out=out.decode("utf-8", "replace"), err=err.decode("utf-8", "replace"), timeout=True)
+    ev = common.parse_events(r["out"])
+    r["complete"] = bool(ev) and ev[-1].get("ev") == "end"
+    r["out"] = ""
+    return r, ev, where
+
+
 SIGNAMES = {int(getattr(signal, n)): n for n in dir(signal) if n.startswith("SIG") and not n.startswith("SIG_")}
 
 
@@ -631,20 +655,29 @@ def clean_fn(fn):
     return fn[:70]
 
 
+UTILITY_FILES = ("colvartypes.h", "colvarvalue.h", "colvarvalue.cpp")     # vector / value helpers: the caller is the site
+
+
 def frame_of(err):
-    """innermost frame that lies in the sources under test:  function@file"""
+    """innermost frame that lies in the sources under test (helpers of the value types skipped):  function@file"""
+    first = None
     for line in err.splitlines():
         ls = line.strip()
         if not re.match(r"#\d+ ", ls):
+            if first and re.match(r"(==\d+==|SUMMARY|\S+ runtime error)", ls):
+                break                      # end of the first stack of the report
             continue
-        m = re.search(r"(\S*/src/(colvar\w*\.(?:cpp|h|cc)))[:,]", ls)
+        m = re.search(r"(\S*/src/(colvar\w*\.(?:cpp|h|cc)))(?=[:,\s]|$)", ls)
         if not m or not m.group(1).startswith(SRC):
             continue
         body = re.sub(r"^#\d+\s+(?:0x[0-9a-fA-F]+\s+in\s+)?", "", ls)
         body = body[:body.index(m.group(1))]
         body = re.sub(r"\s+at\s*$", "", body)      # gdb: "name (args) at file:line"
-        return "%s@%s" % (clean_fn(body), m.group(2))
-    return "?"
+        fr = "%s@%s" % (clean_fn(body), m.group(2))
+        if m.group(2) not in UTILITY_FILES:
+            return fr
+        first = first or fr
+    return first or "?"
 
 
 def gdb_frame(exe, sp, wd, throw=False):
@@ -715,6 +748,7 @@ S_VARIANTS = [
      " forceConstant 4.0\n outputAccumulatedWork on\n}\nhistogram {\n colvars d1 d2\n}\n", "off"),
 ]
 S_N1, S_N2 = 4, 10
+LEGACY_WALLS = ("lowerwall", "upperwall", "lowerwallconstant", "upperwallconstant")
 S_FIELDS = ("rc", "err", "en", "af", "nact")
 
 
@@ -729,6 +763,8 @@ def extract_R(H, T, m):
     if "ch" not in top:
         return render([top]) + "\n"
     if top["k"].lower() == "colvar":
+        if any(nd["k"].lower() in LEGACY_WALLS for nd in top["ch"]):
+            return None      # such a colvar block defines two objects (the colvar and an auto-generated harmonicWalls bias)
         for nd in top["ch"]:
             if "ch" not in nd and nd["k"].lower() == "name":
                 nd["v"] = "rj1"
@@ -882,7 +918,9 @@ def run(tier, replay):
                      "and hard_rss_limit_mb=3000 instead",
                      "the Tcl entry point of the script interface clears the error state at entry of every command; the "
                      "simulator reproduces that with its `clearerr` command in 3 of 4 cases (and before/after R in part c)",
-                     "an exception that leaves the library is counted as fatal (engines do not catch it)"]
+                     "an exception that leaves the library is counted as fatal (engines do not catch it)",
+                     "part c feeds configurations that define exactly one object; colvar blocks with the legacy wall keywords "
+                     "(which generate a second object, a harmonicWalls bias) are not used as R"]
     exe0 = common.vbuild.tool("asan", "esim")
     exe = os.path.join(c.work, "esim_asan")
     shutil.copy(exe0, exe)          # the cache entry is evicted when /repo changes under a running check
@@ -937,13 +975,14 @@ def run(tier, replay):
         r, ev, sp = run_scn(exe, scenario(T, cfgtext, cs["nsteps"], cs["vmd"], wd), wd, "case", timeout)
         j = judge(exe, r, ev, sp, wd)
         if j["status"] == "timeout":
-            r, ev, sp = run_scn(exe, scenario(T, cfgtext, cs["nsteps"], cs["vmd"], wd), wd, "case", timeout * HANG_FACTOR)
+            r, ev, where = run_scn_watch(exe, sp, wd, timeout * HANG_FACTOR)
             j = judge(exe, r, ev, sp, wd)
             if j["status"] == "timeout":
-                j = dict(status="violation", kind="hang", frame="?", text="no termination within %d s (first attempt %d s); last events: %s"
-                         % (timeout * HANG_FACTOR, timeout, json.dumps(ev[-2:])[:600]))
                 last = [e.get("ev") for e in ev][-1:] or ["start"]
-                j["frame"] = "after-" + str(last[0])
+                fr = frame_of(where)
+                j = dict(status="violation", kind="hang", frame=(fr if fr != "?" else "after-" + str(last[0])),
+                         text="no termination within %d s (first attempt %d s); last event: %s; gdb says:\n%s"
+                         % (timeout * HANG_FACTOR, timeout, json.dumps(ev[-1:])[:300], "\n".join(l for l in where.splitlines() if l.startswith("#"))[:1500]))
         oc = config_outcome(ev)
         errs_later = any(e.get("err") or e.get("rc") for e in ev if e.get("ev") in ("init", "step", "endrun", "script"))
         res = dict(j=j, oc=oc[0], msg=oc[1], sp=sp, wd=wd, cfg=cfgtext, errs_later=errs_later, last=(ev[-1].get("ev") if ev else None))
@@ -1020,12 +1059,14 @@ def run(tier, replay):
     for item in pending:
         sites.setdefault((item[1]["j"]["kind"], item[1]["j"]["frame"]), []).append(item)
     c.extra["violation_sites"] = ["%s:%s (%d cases)" % (k[0], k[1], len(v)) for k, v in sites.items()]
-    rank = 0
-    while any(sites.values()):
-        for k in list(sites):
-            if sites[k]:
-                record_now(*sites[k].pop(0))
-        rank += 1
+    for k in list(sites):
+        record_now(*sites[k].pop(0))
+
+    def record_rest():
+        while any(sites.values()):
+            for k in list(sites):
+                if sites[k]:
+                    record_now(*sites[k].pop(0))
 
     # ---- part (c)
     nsurv = 150 if tier == "quick" else 900
@@ -1117,6 +1158,7 @@ def run(tier, replay):
             shutil.rmtree(wd, ignore_errors=True)
             if ncompared % 40 == 1:
                 c.sample({"survivor": sname, "R": lab, "R_error": str(mid[0].get("errs"))[:120], "steps_compared": S_N2 - S_N1}, cap=14)
+    record_rest()
     c.extra["distinct_violation_keys"] = len(seen_keys)
     need = 1500 if tier == "quick" else 12000
     return c.finish(reached >= need and ncompared >= 100,
